@@ -193,6 +193,7 @@ func publishImpl(ctx context.Context, c *BaseClient, message *Message, dup bool)
 		case <-chPubRec:
 		}
 
+		simYield("pub.afterPubRec")
 		var retryPublish2 func(context.Context, *BaseClient) error
 		retryPublish2 = func(ctx context.Context, cli *BaseClient) error {
 			sig, err := cli.signaller()
